@@ -18,19 +18,23 @@ type profile struct {
 
 	wDeliver, wDup, wDrop, wTimeout, wByz, wRegossip int
 
-	holdUntil   int  // holds are lifted at this step ...
-	dropAtLift  bool // ... or the held pairs are lost
-	h0          types.Height
-	r0          types.Round
-	noProp      uint64 // lockstarve: validators that do not get the (h0,r0) proposal while held
-	victims     uint64 // lockstarve: only these see non-nil prevotes of (h0,r0) while held
-	laggard     int    // laggard: receives nothing while held (-1 none)
-	cut         [][]bool
-	recut       int // partition: redraw the cut every recut steps
-	tmBoost     int
-	scriptDone  bool
+	holdUntil      int  // holds are lifted at this step ...
+	dropAtLift     bool // ... or the held pairs are lost
+	h0             types.Height
+	r0             types.Round
+	noProp         uint64 // lockstarve: validators that do not get the (h0,r0) proposal while held
+	victims        uint64 // lockstarve: only these see non-nil prevotes of (h0,r0) while held
+	laggard        int    // laggard: receives nothing while held (-1 none)
+	cut            [][]bool
+	recut          int // partition: redraw the cut every recut steps
+	tmBoost        int
+	scriptDone     bool
 	holdPrecommits bool // lockstarve: non-nil precommits of rounds r0, r0+1 are held too (rounds fail although values get locked)
-	splitAtProp bool // byzantine proposer proposes different values to two halves whenever it is its turn
+	splitAtProp    bool // byzantine proposer proposes different values to two halves whenever it is its turn
+
+	replayBias int // weight multiplier of values of other heights (decided earlier / proposed earlier / built for later heights / forks) in the faulty alphabet
+	wStale     int // weight of a pending timeout that was scheduled at an earlier height than its validator's current one
+	oldGossip  int // of 4: share of re-gossip steps that pick a message of a height below the recipient's
 }
 
 var profileNames = []string{"uniform", "uniform", "splitbrain", "splitbrain", "lockstarve", "lockstarve", "laggard", "partition"}
@@ -82,6 +86,9 @@ func (s *sim) tmWeight(t *ptm) int {
 	if t.tm.Height == p.height && t.tm.Round == p.rec(p.height).round {
 		return 3 * s.prof.tmBoost
 	}
+	if t.tm.Height < p.height {
+		return s.prof.wStale // scheduled at an earlier height, fires in the new one
+	}
 	return 1 // stale: the real driver fires those too (timers are never cancelled)
 }
 
@@ -110,13 +117,22 @@ func (s *sim) pick(label string, w []int) int {
 func newSim(rt *rapid.T, c *stats.Case, bulk bool) *sim {
 	s := &sim{
 		rt: rt, c: c,
-		names: map[V]string{}, valid: map[V]bool{}, byzVals: map[types.Height][2]V{},
-		observed: map[types.Height][]V{}, byzProps: map[hr]map[H]struct{}{},
+		names: map[V]string{genesis: "genesis", junk: "foreign"}, valid: map[V]bool{}, meta: map[V]vmeta{}, byzVals: map[bkey][2]V{},
+		observed: map[types.Height][]V{}, seen: map[types.Height][]V{}, seenSet: map[hv]struct{}{}, first: map[V]types.Height{},
+		byzProps: map[hr]map[H]struct{}{}, replayTo: map[hv]uint64{},
 		decided: map[types.Height]decision{}, eq: map[eqKey]*eqRec{},
 	}
 	h0 := types.Height(rapid.SampledFrom([]uint{1, 1, 0, 7}).Draw(rt, "h0"))
-	nh := rapid.IntRange(1, 3).Draw(rt, "heights")
+	nh := rapid.SampledFrom([]int{1, 2, 2, 2, 3, 3, 4}).Draw(rt, "heights")
 	s.hEnd = h0 + types.Height(nh-1)
+	s.nh = nh
+	// application kind: a chain (validity depends on the validator's height and decided prefix) or the height-independent predicate
+	s.chain = rapid.IntRange(0, 3).Draw(rt, "appChain") > 0
+	if s.chain {
+		c.Label("app:chain(validity-depends-on-height-and-decided-prefix)")
+	} else {
+		c.Label("app:height-independent-predicate")
+	}
 
 	var isByz []bool
 	var powers [][]types.VotingPower
@@ -243,25 +259,14 @@ func newSim(rt *rapid.T, c *stats.Case, bulk bool) *sim {
 		}
 	}
 
-	// values the faulty validators may use besides the ones proposed by correct validators
-	for hh := h0; hh <= s.hEnd+1; hh++ {
-		var bv [2]V
-		for k := 0; k < 2; k++ {
-			bv[k] = mkVal(900_000 + uint64(hh)*10 + uint64(k))
-			s.names[bv[k]] = fmt.Sprintf("b%d@h%d", k+1, hh)
-		}
-		s.valid[bv[0]] = rapid.IntRange(0, 9).Draw(rt, "validB1") < 8
-		s.valid[bv[1]] = rapid.IntRange(0, 9).Draw(rt, "validB2") < 6
-		s.byzVals[hh] = bv
-	}
-
+	// (the values the faulty validators use besides the ones proposed by correct validators are made on demand: byzFor)
 	for i := 0; i < s.n; i++ {
-		nd := &node{i: i, addr: s.vs.addrs[i], byz: isByz[i], height: h0, recs: map[types.Height]*hrec{}}
+		nd := &node{i: i, addr: s.vs.addrs[i], byz: isByz[i], height: h0, recs: map[types.Height]*hrec{}, dec: map[types.Height]V{}}
 		if isByz[i] {
 			s.byz = append(s.byz, i)
 		} else {
 			s.correct = append(s.correct, i)
-			nd.app = &app{s: s, me: i, issued: map[V]struct{}{}}
+			nd.app = &app{s: s, nd: nd, issued: map[V]struct{}{}}
 			nd.sm = tendermint.New[V, H, A](log.NewNopZapLogger(), nd.addr, nd.app, s.vs, h0)
 		}
 		s.nodes = append(s.nodes, nd)
@@ -308,6 +313,16 @@ func (s *sim) drawProfile() {
 		name = "uniform"
 	}
 	pr := profile{name: name, laggard: -1, tmBoost: 1, h0: s.vs.h0, r0: 0, holdUntil: 0}
+	pr.replayBias = rapid.SampledFrom([]int{0, 1, 1, 2, 4}).Draw(rt, "replayBias")
+	pr.wStale = rapid.SampledFrom([]int{1, 1, 2, 6}).Draw(rt, "wStale")
+	pr.oldGossip = rapid.SampledFrom([]int{0, 1, 2}).Draw(rt, "oldGossip")
+	// the skeletons start at a drawn height of the run: later heights are entered with the leftovers of the earlier ones
+	// (locks, valid values, vote sets, pending timeouts, buffered messages)
+	laterH := 0
+	if s.nh > 1 && rapid.IntRange(0, 2).Draw(rt, "skeletonAtLaterHeight") > 0 {
+		laterH = rapid.IntRange(1, s.nh-1).Draw(rt, "skeletonHeight")
+		pr.h0 += types.Height(laterH)
+	}
 	pr.wDeliver = rapid.SampledFrom([]int{40, 60, 80}).Draw(rt, "wDeliver")
 	pr.wDup = rapid.SampledFrom([]int{0, 2, 6}).Draw(rt, "wDup")
 	pr.wDrop = rapid.SampledFrom([]int{0, 0, 2, 8}).Draw(rt, "wDrop")
@@ -319,7 +334,7 @@ func (s *sim) drawProfile() {
 	}
 	switch name {
 	case "splitbrain":
-		// make a faulty validator the proposer of (h0, 0)
+		// make a faulty validator the proposer of round 0 of the skeleton's height
 		b := s.byz[rapid.IntRange(0, len(s.byz)-1).Draw(rt, "sbwho")]
 		for s.vs.propIdx(pr.h0, 0) != b {
 			s.vs.off = (s.vs.off + 1) % s.n
@@ -329,7 +344,7 @@ func (s *sim) drawProfile() {
 			pr.wByz = 10
 		}
 	case "lockstarve":
-		pr.holdUntil = rapid.IntRange(30, 200).Draw(rt, "holdUntil")
+		pr.holdUntil = rapid.IntRange(30, 200).Draw(rt, "holdUntil") + 70*laterH
 		pr.dropAtLift = rapid.Bool().Draw(rt, "dropAtLift")
 		pr.holdPrecommits = rapid.Bool().Draw(rt, "holdPrecommits")
 		pr.tmBoost = 3
@@ -377,6 +392,9 @@ func (s *sim) drawProfile() {
 	}
 	s.prof = pr
 	s.c.Label("prof:" + name)
+	if laterH > 0 && (name == "splitbrain" || name == "lockstarve") {
+		s.c.Label("prof:skeleton-at-later-height")
+	}
 }
 
 func (s *sim) redrawCut() {
@@ -408,6 +426,12 @@ func (s *sim) inject(m msg, mask uint64, why string) {
 		}
 		s.byzProps[k][m.id.h] = struct{}{}
 	}
+	if !m.id.isNil {
+		s.noteSeen(m.h, m.val())
+	}
+	if len(s.byzHistory) < 400 {
+		s.byzHistory = append(s.byzHistory, m)
+	}
 	for _, i := range s.correct {
 		if mask&bit(i) == 0 || s.nodes[i].finished {
 			continue
@@ -418,33 +442,189 @@ func (s *sim) inject(m msg, mask uint64, why string) {
 	}
 }
 
-// byzAlphabet: values a faulty validator may name at height h: its own two, and everything correct proposers proposed.
-func (s *sim) byzAlphabet(h types.Height) []V {
-	var out []V
-	if bv, ok := s.byzVals[h]; ok {
-		out = append(out, bv[0], bv[1])
-	} else {
-		bv := s.byzVals[s.hEnd+1]
-		out = append(out, bv[0], bv[1])
+// byzFor: the faulty validators' own two values built for height h on the given parent (made on first use; whether the
+// content is acceptable is drawn). With the height-independent application the parent plays no role.
+func (s *sim) byzFor(h types.Height, parent V) [2]V {
+	if !s.chain {
+		parent = genesis
 	}
-	obs := s.observed[h]
-	if len(obs) > 4 {
-		obs = obs[len(obs)-4:]
+	k := bkey{h, parent}
+	if bv, ok := s.byzVals[k]; ok {
+		return bv
 	}
-	return append(out, obs...)
+	var bv [2]V
+	for i := 0; i < 2; i++ {
+		s.byzCtr++
+		v := mkVal(900_000 + s.byzCtr)
+		ok := rapid.IntRange(0, 9).Draw(s.rt, "validB") < 8-2*i
+		s.valid[v] = ok
+		s.meta[v] = vmeta{h: h, parent: parent, bad: !ok}
+		if s.chain {
+			s.names[v] = fmt.Sprintf("b%d@h%d^%s", i+1, h, s.vname(parent))
+		} else {
+			s.names[v] = fmt.Sprintf("b%d@h%d", i+1, h)
+		}
+		bv[i] = v
+	}
+	s.byzVals[k] = bv
+	return bv
+}
+
+func lastN(x []V, n int) []V {
+	if len(x) > n {
+		return x[len(x)-n:]
+	}
+	return x
+}
+
+// tipGuess: the parent a faulty validator builds a value for height h on: the value decided at h-1 when some correct
+// validator decided it, else one of the values named at h-1 (it may or may not become the decided one).
+func (s *sim) tipGuess(h types.Height) V {
+	if !s.chain || h <= s.vs.h0 {
+		return genesis
+	}
+	if d, ok := s.decided[h-1]; ok {
+		return d.v
+	}
+	c := lastN(s.seen[h-1], 6)
+	if len(c) == 0 {
+		return junk
+	}
+	return c[rapid.IntRange(0, len(c)-1).Draw(s.rt, "parentGuess")]
+}
+
+// drawVal: a value a faulty validator names in a message of height h. The alphabet:
+//
+//	own      its own values built for h on the decided chain (content drawn good/bad)
+//	current  values correct proposers proposed at h
+//	decided  values decided at EARLIER heights (the latest one preferred)
+//	stale    values named at earlier heights and not decided there (proposals of failed rounds, faulty values)
+//	future   values built for LATER heights (own ones, or proposals of correct validators that are already ahead)
+//	fork     own values built for h on a parent that is not the decided value of h-1 (chain application only)
+func (s *sim) drawVal(h types.Height, label string) V {
+	rt := s.rt
+	obs := lastN(s.observed[h], 4)
+	var dec, stale, fut []V
+	for hh := s.vs.h0; hh < h; hh++ {
+		d, ok := s.decided[hh]
+		if ok {
+			dec = append(dec, d.v)
+		}
+		for _, v := range s.seen[hh] {
+			if !ok || v != d.v {
+				stale = append(stale, v)
+			}
+		}
+	}
+	stale = lastN(stale, 6)
+	for hh := h + 1; hh <= s.hEnd+1; hh++ {
+		fut = append(fut, s.seen[hh]...)
+	}
+	fut = lastN(fut, 4)
+	rb := s.prof.replayBias
+	w := []int{4, 0, 0, 0, rb, 0}
+	if len(obs) > 0 {
+		w[1] = 3
+	}
+	if len(dec) > 0 {
+		w[2] = 3 * rb
+	}
+	if len(stale) > 0 {
+		w[3] = 2 * rb
+	}
+	if s.chain && h > s.vs.h0 {
+		w[5] = rb
+	}
+	pickOf := func(x []V) V { return x[rapid.IntRange(0, len(x)-1).Draw(rt, label+"I")] }
+	switch s.pick(label+"Cat", w) {
+	case 1:
+		return pickOf(obs)
+	case 2:
+		if rapid.IntRange(0, 2).Draw(rt, label+"Latest") > 0 {
+			return dec[len(dec)-1]
+		}
+		return pickOf(dec)
+	case 3:
+		return pickOf(stale)
+	case 4:
+		if len(fut) > 0 && rapid.Bool().Draw(rt, label+"Seen") {
+			return pickOf(fut)
+		}
+		bv := s.byzFor(h+1, s.tipGuess(h+1))
+		return bv[rapid.IntRange(0, 1).Draw(rt, label+"I")]
+	case 5:
+		parent := junk
+		var c []V
+		for _, v := range lastN(s.seen[h-1], 6) {
+			if d, ok := s.decided[h-1]; !ok || d.v != v {
+				c = append(c, v)
+			}
+		}
+		if len(c) > 0 && rapid.Bool().Draw(rt, label+"ForkSeen") {
+			parent = pickOf(c)
+		}
+		bv := s.byzFor(h, parent)
+		return bv[rapid.IntRange(0, 1).Draw(rt, label+"I")]
+	}
+	bv := s.byzFor(h, s.tipGuess(h))
+	return bv[rapid.IntRange(0, 1).Draw(rt, label+"I")]
 }
 
 func (s *sim) drawID(h types.Height, label string, allowNil bool) idk {
-	al := s.byzAlphabet(h)
-	lo := 0
-	if allowNil {
-		lo = -1
-	}
-	k := rapid.IntRange(lo, len(al)-1).Draw(s.rt, label)
-	if k < 0 {
+	if allowNil && rapid.IntRange(0, 5).Draw(s.rt, label+"Nil") == 0 {
 		return idk{isNil: true}
 	}
-	return idk{h: al[k].Hash()}
+	return idk{h: s.drawVal(h, label).Hash()}
+}
+
+// transposeOld: a faulty validator takes a message of an earlier height (anybody's proposal or vote, any round) and
+// sends it again under its own name with only the height rewritten to h: same round, same value, same validRound.
+func (s *sim) transposeOld(b int, tgt *node) bool {
+	rt := s.rt
+	h := tgt.height
+	var idx []int
+	nh := len(s.history)
+	for i := range s.history {
+		if s.history[i].h < h {
+			idx = append(idx, i)
+		}
+	}
+	for i := range s.byzHistory {
+		if s.byzHistory[i].h < h {
+			idx = append(idx, nh+i)
+		}
+	}
+	if len(idx) == 0 {
+		return false
+	}
+	k := idx[rapid.IntRange(0, len(idx)-1).Draw(rt, "transposeWhich")]
+	var m msg
+	if k < nh {
+		m = s.history[k]
+	} else {
+		m = s.byzHistory[k-nh]
+	}
+	m.h, m.from = h, b
+	if m.kind == 'P' && s.vs.propIdx(h, m.r) != b && rapid.IntRange(0, 3).Draw(rt, "transposeToOwnRound") > 0 {
+		// move it to the next round (from the target's current one) that this faulty validator is the proposer of
+		cur := tgt.rec(h).round
+		if cur < 0 {
+			cur = 0
+		}
+		for d := 0; d < s.n; d++ {
+			if s.vs.propIdx(h, cur+types.Round(d)) == b {
+				m.r = cur + types.Round(d)
+				break
+			}
+		}
+	}
+	mask := s.drawSubset("transposeTo")
+	if mask == 0 {
+		mask = bit(tgt.i)
+	}
+	s.transposed = true
+	s.inject(m, mask, "old message, height rewritten")
+	return true
 }
 
 func (s *sim) byzStep() {
@@ -456,6 +636,9 @@ func (s *sim) byzStep() {
 	cur := tgt.rec(h).round
 	if cur < 0 {
 		cur = 0
+	}
+	if h > s.vs.h0 && s.prof.replayBias > 0 && rapid.IntRange(0, 7).Draw(rt, "byzTranspose") == 0 && s.transposeOld(b, tgt) {
+		return
 	}
 	if rapid.IntRange(0, 11).Draw(rt, "byzFutureH") == 0 {
 		h++
@@ -510,9 +693,8 @@ func (s *sim) splitBrain(b int, h types.Height, r types.Round) {
 	rt := s.rt
 	half := s.drawSubset("sbHalf")
 	rest := s.correctMask() &^ half
-	al := s.byzAlphabet(h)
-	va := idk{h: al[rapid.IntRange(0, len(al)-1).Draw(rt, "sbA")].Hash()}
-	vb := idk{h: al[rapid.IntRange(0, len(al)-1).Draw(rt, "sbB")].Hash()}
+	va := idk{h: s.drawVal(h, "sbA").Hash()}
+	vb := idk{h: s.drawVal(h, "sbB").Hash()}
 	s.inject(msg{kind: 'P', h: h, r: r, from: b, id: va, vr: -1}, half, "split-brain A")
 	s.inject(msg{kind: 'P', h: h, r: r, from: b, id: vb, vr: -1}, rest, "split-brain B")
 	if rapid.IntRange(0, 3).Draw(rt, "sbVotes") > 0 {
@@ -572,8 +754,12 @@ func (s *sim) script() {
 		var id *idk
 		prop := s.vs.propIdx(pr.h0, pr.r0)
 		if s.nodes[prop].byz {
-			bv := s.byzVals[pr.h0][0]
-			id = &idk{h: bv.Hash()}
+			// mostly the faulty proposer's own first value (usually valid, so that victims lock on it), else anything of its alphabet
+			if rapid.IntRange(0, 3).Draw(s.rt, "lsOwn") > 0 {
+				id = &idk{h: s.byzFor(pr.h0, s.tipGuess(pr.h0))[0].Hash()}
+			} else {
+				id = &idk{h: s.drawVal(pr.h0, "lsVal").Hash()}
+			}
 			s.inject(msg{kind: 'P', h: pr.h0, r: pr.r0, from: prop, id: *id, vr: -1}, s.correctMask()&^pr.noProp, "lock-then-starve")
 		} else if sp, ok := s.nodes[prop].rec(pr.h0).sentProp[pr.r0]; ok {
 			id = &sp.id
@@ -614,7 +800,7 @@ func (s *sim) done() bool {
 }
 
 func (s *sim) run() {
-	s.maxStep = rapid.IntRange(60, 400).Draw(s.rt, "steps")
+	s.maxStep = rapid.IntRange(60*s.nh, 300+100*s.nh).Draw(s.rt, "steps")
 	for _, i := range s.correct {
 		s.tracef("#start validator %d", i)
 		s.startHeight(s.nodes[i])
@@ -668,7 +854,7 @@ func (s *sim) stepOnce() bool {
 	if len(s.byz) > 0 {
 		ops[4] = pr.wByz
 	}
-	if len(s.history) > 0 {
+	if len(s.history)+len(s.byzHistory) > 0 {
 		ops[5] = pr.wRegossip
 	}
 	op := s.pick("op", ops)
@@ -707,9 +893,25 @@ func (s *sim) stepOnce() bool {
 		s.byzStep()
 	case 5:
 		// late re-delivery of anything a correct validator ever broadcast, to any correct validator (gossip re-send)
-		m := s.history[rapid.IntRange(0, len(s.history)-1).Draw(s.rt, "regossip")]
+		// ... or a faulty validator ever sent. A share of these steps picks a message of a height the recipient has left.
 		live := s.live()
 		to := live[rapid.IntRange(0, len(live)-1).Draw(s.rt, "regossipTo")]
+		pool := s.history
+		if len(s.byzHistory) > 0 && (len(pool) == 0 || rapid.IntRange(0, 3).Draw(s.rt, "regossipFaulty") == 0) {
+			pool = s.byzHistory
+		}
+		m := pool[rapid.IntRange(0, len(pool)-1).Draw(s.rt, "regossip")]
+		if rapid.IntRange(0, 3).Draw(s.rt, "regossipOld") < pr.oldGossip {
+			var old []int
+			for i := range pool {
+				if pool[i].h < s.nodes[to].height {
+					old = append(old, i)
+				}
+			}
+			if len(old) > 0 {
+				m = pool[old[rapid.IntRange(0, len(old)-1).Draw(s.rt, "regossipOldI")]]
+			}
+		}
 		s.tracef("#%d re-gossip %s -> validator %d", s.step, s.mstr(m), to)
 		s.c.Fp("g%c%d.%d.%d.%s.%d", m.kind, m.h, m.r, m.from, m.content(), to)
 		s.deliver(to, m)
